@@ -51,6 +51,7 @@ mutual
   def fieldNeeds : FieldPlan → Bool × List Str.S
     | .skip _ => (false, [])
     | .mapped _ _ _ _ _ c _ => convNeeds c
+    | .viaMethod _ _ _ _ cl _ c _ => let a := convNeeds cl; let b := convNeeds c; (a.1 || b.1, a.2 ++ b.2)
 end
 
 def bodyNeeds : Body → Bool × List Str.S
